@@ -409,6 +409,16 @@ theorem unrelated_definition_output (env : Env) (z : String) (v : Int) (a b : Li
     output env (a ++ Node.symbolConst z v :: b) r = output env (a ++ b) r :=
   output_insert (qual_closed z) env z (Or.inl rfl) v a b hf r hk
 
+open Unrel in
+/-- **… and an unrelated label can only make the assembly fail, never change its output**: with one more *label* `z:`
+    inserted anywhere (same hypotheses), the writer gets exactly the same `write_block` calls, or the assembly raises — the
+    label's own emission-time check ("label moved / hidden", C02) being the only new thing that can fail -/
+theorem unrelated_label_output (env : Env) (z : String) (a b : List Node)
+    (hf : ∀ n ∈ a ++ b, FreeN (Qual z) n) (r : Resolver)
+    (hk : ∀ i, NodupKeys (r.scopes.getD i default).symbols) :
+    output env (a ++ Node.label z :: b) r = output env (a ++ b) r ∨ ∃ e, output env (a ++ Node.label z :: b) r = .error e :=
+  output_insert_label (qual_closed z) env z (Or.inl rfl) a b hf r hk
+
 /-- non-vacuity: nodes that do not mention `z`; the symbol tables a fresh resolver starts with hold no name twice -/
 example : Unrel.FreeN (Qual "z") (Node.ascii "hi") ∧ Unrel.FreeN (Qual "z") Node.scopeEnter ∧
     Unrel.NodupKeys ([] : List (String × Int)) ∧ Unrel.NodupKeys (ainsert "a" 1 (ainsert "b" 2 ([] : List (String × Int)))) :=
